@@ -11,6 +11,7 @@ TBoxes == {EmptyBox} \cup {b \in { << <<x1, y1>>, <<x2, y2>> >> :
 
 CaseSet == [kind : {"geom"}, g : GeomCases(L2, L3o, L3i, LG)]
            \cup [kind : {"box2"}, a : WFBoxes, b : WFBoxes]
+           \cup [kind : {"boxext"}, a : WFBoxes, b : {x \in Boxes : BoxEmpty(x) /\ x # EmptyBox}]   \* Extend by any box Empty() calls empty
            \cup (IF TripleCoords = {} THEN {} ELSE [kind : {"box3"}, a : TBoxes, b : TBoxes, c : TBoxes])
 
 GenInit == /\ g = 0 /\ st = 0 /\ n = 0 /\ out = 0 /\ oob = FALSE
